@@ -24,6 +24,12 @@ def searcher(ctx):
             for _, kd, tg in ctx.r.callees(ctx.m.funcs[q]):
                 if kd not in ("external", "unknown"):
                     reach |= set(tg)
+        # a handler that is a thin wrapper around another handler (highlight -> references): one more level
+        for q in list(reach):
+            if q in ctx.m.funcs and ctx.m.funcs[q].cls and any(q in v for v in t.values()):
+                for _, kd, tg in ctx.r.callees(ctx.m.funcs[q]):
+                    if kd not in ("external", "unknown"):
+                        reach |= set(tg)
         withf = {q for q in reach if q in ctx.m.funcs and any(isinstance(c.func, ast.Attribute) and c.func.attr == "finditer" for c in calls_in(ctx.m.funcs[q].node))}
         cands = withf if cands is None else cands & withf
     if len(cands or ()) != 1:
@@ -372,7 +378,10 @@ def r5(ctx, R, g, hs):
         return
     if hil is not ref:
         ch = search_call(hil)
-        if ch is None:
+        via_ref = any(ref.qual in ctx.r.resolve_call(hil, c)[1] for c in calls_in(hil.node))
+        if ch is None and via_ref:
+            R.ok("C06.R5", hil.short, "documentHighlight obtains its occurrences from the references handler", loc(hil, hil.node))
+        elif ch is None:
             R.violation("C06.R5", hil.short, "shared search", loc(hil, hil.node), "documentHighlight has its own search")
     def argsig(c):
         return [unparse(a) for a in c.args] + sorted(f"{kw.arg}={unparse(kw.value)}" for kw in c.keywords)
